@@ -1174,14 +1174,16 @@ class ModuleRun:
             return None, True
         return bb, True
 
-    def compare_copy(self, rec, h, tag, p, mode, log=None, obs=None, gs=None, ms=None):
-        """Oracle: copy vs original in the given state."""
+    def compare_copy(self, rec, h, tag, p, mode, log=None, obs=None, gs=None, want_gs=None):
+        """Oracle: copy vs original in the given state (structure against the image of the very
+        object that was pickled; behaviour against the original's pass from the same state)."""
         name = rec["name"]
         gs = generic_state(h) if gs is None else gs
+        want_gs = rec["gs" + tag] if want_gs is None else want_gs
         self.stats["state_compares"] += 1
-        if gs != rec["gs" + tag]:
+        if gs != want_gs:
             self.v("structural state differs after the round trip", name, protocol=p, mode=mode, state=tag,
-                   diff=first_diff(rec["gs" + tag], gs))
+                   diff=first_diff(want_gs, gs))
         if obs is None:
             obs = observe(h, self.dicts, log)
         self.count_obs(obs)
@@ -1220,8 +1222,9 @@ class ModuleRun:
                     # a second generation: pickle the copy again
                     if tag == "A" and p == 4:
                         try:
+                            gs_h = generic_state(h)     # h has gone through the same pass as the original: state B
                             h2 = loads(dumps(h, p, bypass), bypass)
-                            self.compare_copy(rec, h2, "B", p, mode + "/second-generation", log=log)
+                            self.compare_copy(rec, h2, "B", p, mode + "/second-generation", log=log, want_gs=gs_h)
                         except Exception as e:  # noqa: BLE001
                             self.v("re-pickling an unpickled dataset fails", name, protocol=p, mode=mode,
                                    error=type(e).__name__)
@@ -1744,6 +1747,7 @@ def run(ctx):
     for mr in runs:
         mism += mr.mism
     viol = [v for mr in runs for v in mr.viol]
+    viol.sort(key=lambda v: v.get("finding") is not None)      # unexplained failures first
     still, wit = d18_witness(ctx, f"c20w_{tagid}")
     stats = {}
     for mr in runs:
